@@ -852,7 +852,20 @@ func (w *c08World) gsfaRisk(f *old_faithful_grpc.StreamTransactionsFilter, start
 	if f == nil || len(f.AccountInclude) == 0 {
 		return false
 	}
-	return w.gsfaOf[w.cur]
+	return w.gsfaInRange(start, e)
+}
+
+// gsfaInRange: a loaded epoch inside [epoch(start), epoch(end)] has a gsfa index (`gsfaReadersLoaded`)
+func (w *c08World) gsfaInRange(start, e uint64) bool {
+	if w.cur >= 3 {
+		return false
+	}
+	for k, n := range w.epochsOf[w.cur] {
+		if w.eps[k].Ep.gsfaReader != nil && n >= start/432000 && n <= e/432000 {
+			return true
+		}
+	}
+	return false
 }
 
 // execOp runs one op line against the real code and returns the canonical answer.
@@ -1193,6 +1206,10 @@ func (g *c08Gen) encodingValue() *c08J {
 }
 
 func (g *c08Gen) blockOpts() *c08J {
+	if g.rng.Intn(10) == 0 {
+		g.s.Count("opts:bare-encoding-string")
+		return jStr(g.pick("json", "base58", "base64", "base64+zstd", "jsonParsed"))
+	}
 	if g.rng.Intn(8) == 0 {
 		g.s.Count("opts:not-an-object")
 		return g.wrongTyped()
@@ -1281,6 +1298,10 @@ func (g *c08Gen) sigValue() *c08J {
 }
 
 func (g *c08Gen) txOpts() *c08J {
+	if g.rng.Intn(10) == 0 {
+		g.s.Count("opts:bare-encoding-string")
+		return jStr(g.pick("json", "base58", "base64", "base64+zstd", "jsonParsed"))
+	}
 	if g.rng.Intn(8) == 0 {
 		g.s.Count("opts:not-an-object")
 		return g.wrongTyped()
@@ -1870,6 +1891,79 @@ func (g *c08Gen) genBca() string {
 	return w.bcaLine(items, g.accounts(3))
 }
 
+// directedStreams: filter shapes × end_slot shapes × start in each fixture epoch, for both stream RPCs; the three
+// servers give {no epoch, gsfa loaded, gsfa + no gsfa}.  Shapes that would make the *unchanged* loops spin
+// (an explicit end of 2^64-1: `slot <= end` never fails) are sent with a cancelled context on the scanning path and
+// not at all on the gsfa path, where txBuffer.flush does not look at the context.
+func (g *c08Gen) directedStreams() []string {
+	w := g.w
+	var out []string
+	known := w.addrs[0].String()
+	unknown := b58n(zz.NewRNG(77), 32)
+	starts := []uint64{w.eps[0].G.Blocks[2].Slot, w.eps[1].G.Blocks[2].Slot}
+	type endShape struct {
+		name string
+		end  func(start uint64) string
+	}
+	ends := []endShape{
+		{"absent", func(uint64) string { return "-" }},
+		{"equal", func(s uint64) string { return fmt.Sprint(s) }},
+		{"minus-1", func(s uint64) string { return fmt.Sprint(s - 1) }},
+		{"minus-5", func(s uint64) string { return fmt.Sprint(s - 5) }},
+		{"minus-epoch", func(s uint64) string { return fmt.Sprint(s - 432000) }},
+		{"to-zero", func(s uint64) string { return "0" }},
+		{"wide", func(s uint64) string { return fmt.Sprint(s + 200000) }},
+		{"max", func(s uint64) string { return fmt.Sprint(uint64(1<<64 - 1)) }},
+	}
+	txFilters := []struct{ name, f string }{
+		{"none", "-"},
+		{"exclude", fmt.Sprintf("V1;F1;I.;E%s;R.", csvHex([]string{known}))},
+		{"include-known", fmt.Sprintf("V1;F1;I%s;E.;R.", csvHex([]string{known}))},
+		{"include-unknown", fmt.Sprintf("V1;F1;I%s;E.;R.", csvHex([]string{unknown}))},
+		{"include-known-optionals-absent", fmt.Sprintf("V-;F-;I%s;E.;R.", csvHex([]string{known}))},
+		{"required", fmt.Sprintf("V1;F1;I.;E.;R%s", csvHex([]string{known}))},
+	}
+	blkFilters := []struct{ name, f string }{
+		{"none", "-"},
+		{"include-known", csvHex([]string{known})},
+		{"include-unknown", csvHex([]string{unknown})},
+		{"include-malformed", csvHex([]string{"not-base58"})},
+	}
+	for _, start := range starts {
+		for _, e := range ends {
+			end := e.end(start)
+			for _, f := range txFilters {
+				g.s.Count("stream-cross:tx:" + f.name + ":end-" + e.name)
+				cancel := "0"
+				if e.name == "max" {
+					tf := parseTxFilter(f.f)
+					if tf != nil && len(tf.AccountInclude) > 0 && w.gsfaInRange(start, 1<<64-1) {
+						continue // unchanged code: flush() walks 2^64 slots without looking at the context
+					}
+					cancel = "1"
+				}
+				out = append(out, fmt.Sprintf("g StreamTransactions %d %s %s %s", start, end, cancel, f.f))
+			}
+			for _, f := range blkFilters {
+				g.s.Count("stream-cross:blocks:" + f.name + ":end-" + e.name)
+				cancel := "0"
+				if e.name == "max" {
+					cancel = "1"
+				}
+				out = append(out, fmt.Sprintf("g StreamBlocks %d %s %s %s", start, end, cancel, f.f))
+			}
+		}
+	}
+	// start + maxSlotsToStream wraps around
+	for _, f := range txFilters {
+		out = append(out, fmt.Sprintf("g StreamTransactions %d - 0 %s", uint64(1<<64-50), f.f))
+	}
+	for _, f := range blkFilters {
+		out = append(out, fmt.Sprintf("g StreamBlocks %d - 0 %s", uint64(1<<64-50), f.f))
+	}
+	return out
+}
+
 // bcaLine adds the ground truth the model needs: is one of the accounts a static key / a loaded address of the tx
 func (w *c08World) bcaLine(items []string, accounts []string) string {
 	set := map[string]bool{}
@@ -1926,6 +2020,15 @@ func (g *c08Gen) directed() []string {
 	rpc(base("getBlock").with("params", jArr(jInt(s0), jObj(kv("encoding", jNull())))))
 	rpc(base("getBlock").with("params", jArr(jInt(s0), jNull())))
 	rpc(base("getBlock").with("params", jArr(jInt(s0), jObj(kv("encoding", jStr("jsonParsed"))))))
+	for _, enc := range []string{"json", "base58", "base64", "base64+zstd", "jsonParsed", "finalized"} {
+		// a string where the options object belongs, for a block / transaction that exists
+		rpc(base("getBlock").with("params", jArr(jInt(s0), jStr(enc))))
+		rpc(base("getBlock").with("params", jArr(jInt(w.slots[len(w.slots)-1]), jStr(enc))))
+		rpc(base("getTransaction").with("params", jArr(jStr(w.sigs[0].String()), jStr(enc))))
+	}
+	rpc(base("getBlock").with("params", jArr(jInt(s0), jInt(7))))
+	rpc(base("getBlock").with("params", jArr(jInt(s0), jBool(true))))
+	rpc(base("getBlock").with("params", jArr(jInt(s0), jArr())))
 	rpc(base("getBlockTime").with("params", jArr(jInt(s0))))
 	rpc(base("getTransaction").with("params", jArr(jStr(w.sigs[0].String()))))
 	rpc(base("getTransaction").with("params", jArr(jStr(w.sigs[0].String()), jObj(kv("encoding", jStr("base58"))))))
@@ -1961,6 +2064,9 @@ func (g *c08Gen) directed() []string {
 		fmt.Sprintf("g Get V;B%d;T%d;X%s;N eof -", s0, s0, hx(string(w.sigs[0][:]))),
 		"g Get . eof -",
 		"g Get N eof -",
+	)
+	out = append(out, g.directedStreams()...)
+	out = append(out,
 		w.bcaLine([]string{"0:real"}, []string{a0}),
 		w.bcaLine([]string{"0:garbage"}, []string{b58n(g.rng, 32)}),
 		w.bcaLine([]string{"0:empty", "g", "1:real"}, []string{"x"}),
